@@ -5,7 +5,8 @@
    MROs of the outsider classes; TreeVerdict compares it with the data in Errors.tla.
    Every other record ("escape") is one real grader call: grader requirement, input form, debug flag, what the
    grading step did (class MRO and message of the exception that left check(), captured at the instance), what
-   escaped from __call__, whether the call ended in time.  Messages arrive as symbol sequences over
+   escaped from __call__, whether the call ended in time, whether an expect value was passed to an unconfigured
+   grader (answer inference runs before everything else and outside the try block).  Messages arrive as symbol sequences over
    {"w","NL","BR"} plus the flag `same` (the text runs between the breaks are identical, in order).
    A record is accepted iff the observation equals ErrorChannel!Outward for it.                                  *)
 EXTENDS Errors, Json, IOUtils
@@ -55,8 +56,12 @@ EscapeClause(r) ==
       obs == ObservedOf(r, kind)
       textual == obs.k = "raise" /\ obs.msg.t = "text"
   IN
-  IF r.timed_out THEN "terminates"
+  IF r.timed_out THEN (IF r.debug THEN "debug-timeout" ELSE "terminates")
   ELSE IF ~r.debug /\ r.outward.k = "raise" /\ ~MroInFamily(r.outward.mro) THEN "family"
+  ELSE IF r.inferring /\ ~r.checked /\ r.outward.k = "raise" /\ r.outward.kind = "refusal" /\ EC!Gradable(kind)
+         THEN "ok"      \* the expect value was rejected while the answer was inferred: stays inside the family (above)
+  ELSE IF r.inferring /\ ~r.checked /\ r.outward.k = "raise" /\ ~EC!Gradable(kind) /\ (r.debug \/ MroInFamily(r.outward.mro))
+         THEN "ok"      \* ... or the input object was refused; which of the two comes first is not the statement's business
   ELSE IF ~EC!Gradable(kind) THEN (IF obs = exp /\ ~r.checked /\ r.outward.mro = Mro("ConfigError") THEN "ok" ELSE "refuse")
   ELSE IF r.debug THEN (IF obs = exp /\ (textual => r.outward.same) /\ (obs.k = "raise" => r.outward.mro = r.inner.mro)
                         THEN "ok" ELSE "debug")
